@@ -681,7 +681,7 @@ def load(f, **options):  # type: (typing.IO, **typing.Any) -> canmatrix.CanMatri
                         frame.is_complex_multiplexed = True
 
             elif decoded.startswith("BO_TX_BU_ "):
-                regexp = re.compile(r"^BO_TX_BU_ ([0-9]+) *: *(.+) *;")
+                regexp = re.compile(r"^BO_TX_BU_ +([0-9]+) *: *(.+) *;")
                 temp = regexp.match(decoded)
                 frame = get_frame_by_id(arbitration_id_from_compound(int(temp.group(1))))
                 for ecu_name in temp.group(2).split(','):
